@@ -898,7 +898,119 @@ def o_cdf(tn, xs, zs):
     return None
 
 
-ORACLES = dict(grid=o_grid, points=o_points, scale=o_scale, batch=o_batch, bcast=o_bcast, flat=o_flat,
+def _hist_points(av, bv, nv, idx, kind):
+    """points a quarter cell after node idx_k (before it for the last node): the expected index is idx_k exactly"""
+    out = []
+    for a, b, n, i in zip(av, bv, nv, idx):
+        t = i + 0.25 if i <= n - 2 else i - 0.25
+        if kind == 'uni':
+            out.append(float(Fr(a) + (Fr(b) - Fr(a)) * Fr(t) / (n - 1)))
+        else:
+            out.append((b - a) / 2 * math.cos(math.pi * t / (n - 1)) + (b + a) / 2)
+    return out
+
+
+def o_history(tn, av, bv, nv, kind, calls, rows):
+    """HISTORY / argument-form family: the options a, b, n are ndarrays of exactly the dtype the code converts to
+    (float64 / int: np.asanyarray returns the caller's object) and are REUSED across consecutive calls.  Every call must
+    give the reference answer (nodes from exact rational / libm arithmetic, indices known by construction) and must
+    leave the option arrays (and its first argument) bit-for-bit unchanged."""
+    d = len(av)
+    a_arr, b_arr = np.array(av, dtype=float), np.array(bv, dtype=float)
+    n_arr = np.array(nv, dtype=int)
+    keep = [a_arr.copy(), b_arr.copy(), n_arr.copy()]
+    u = max(scale_ulp(a, b) for a, b in zip(av, bv))
+    w = max(b - a for a, b in zip(av, bv))
+    tol = 6 * u + 8 * math.ulp(w)
+
+    def unchanged(step, what):
+        for nm, arr, k0 in zip('abn', [a_arr, b_arr, n_arr], keep):
+            if arr.dtype != k0.dtype or arr.shape != k0.shape or not np.array_equal(arr, k0):
+                return dict(what=f'{what} modified its option array {nm} in place (call {step + 1} of the sequence)',
+                            got=arr.tolist(), expected=k0.tolist())
+        return None
+
+    for step, (fn, batch) in enumerate(calls):
+        idx = rows if batch else rows[0]
+        idxs = idx if batch else [idx]
+        if fn == 'ind_to_poi':
+            arg = np.array(idx, dtype=int)
+            arg0 = arg.copy()
+            got = np.asarray(tn.ind_to_poi(arg, a_arr, b_arr, n_arr, kind), dtype=float)
+            ref = np.array([[_ref_node(a, b, n, i, kind) for a, b, n, i in zip(av, bv, nv, r)] for r in idxs])
+            ref = ref if batch else ref[0]
+            if got.shape != ref.shape or np.abs(got - ref).max() > tol:
+                return dict(what=f'ind_to_poi({kind}) with ndarray options reused across calls: call {step + 1} does not '
+                                 f'return the grid nodes', got=got.tolist(), expected=ref.tolist())
+        else:
+            pts = [_hist_points(av, bv, nv, r, kind) for r in idxs]
+            arg = np.array(pts if batch else pts[0], dtype=float)
+            arg0 = arg.copy()
+            if fn == 'poi_to_ind':
+                got = np.asarray(tn.poi_to_ind(arg, a_arr, b_arr, n_arr, kind))
+                ref = np.array(idx)
+                if got.shape != ref.shape or got.tolist() != ref.tolist():
+                    return dict(what=f'poi_to_ind({kind}) with ndarray options reused across calls: call {step + 1} returns '
+                                     f'wrong indices', got=got.tolist(), expected=ref.tolist(), points=arg.tolist())
+            else:
+                got = np.asarray(tn.poi_scale(arg, a_arr, b_arr, kind), dtype=float)
+                lo = 0.0 if kind == 'uni' else -1.0
+                ref = np.array([[lo + (x - a) * (1.0 - lo) / (b - a) for x, a, b in zip(r, av, bv)] for r in (pts if batch else [pts[0]])])
+                ref = ref if batch else ref[0]
+                if got.shape != ref.shape or np.abs(got - ref).max() > 1e-9 + 64 * u / w * 2:
+                    return dict(what=f'poi_scale({kind}) with ndarray options reused across calls: call {step + 1} is not '
+                                     f'the affine map', got=got.tolist(), expected=ref.tolist())
+        if not np.array_equal(arg, arg0):
+            return dict(what=f'{fn} modified its first argument in place')
+        f = unchanged(step, fn)
+        if f:
+            return f
+    return None
+
+
+def o_forms(tn, av, bv, nv, kind, idx):
+    """argument forms of a scalar option: Python scalar, numpy scalar, 0-d array, 1-element-per-dimension list / ndarray.
+    Documented forms (int / float incl. np.float64 which IS a float, list, 1-D ndarray) must give the reference answer;
+    undocumented forms (numpy integer scalars, 0-d arrays) may raise but must never return a different answer.
+    Returns (failure or None, list of undocumented forms that raised)."""
+    a, b, n = av[0], bv[0], nv[0]
+    d = len(idx)
+    pts = _hist_points([a] * d, [b] * d, [n] * d, idx, kind)
+    ref_x = np.asarray(tn.ind_to_poi(list(idx), a, b, n, kind), dtype=float)
+    ref_i = np.asarray(tn.poi_to_ind(list(pts), a, b, n, kind))
+    ref_s = np.asarray(tn.poi_scale(list(pts), a, b, kind), dtype=float)
+    if ref_i.tolist() != list(idx):
+        return dict(what=f'poi_to_ind({kind}): wrong indices for quarter-cell points', got=ref_i.tolist(), expected=list(idx)), []
+    raised = []
+    forms_ab = [('np.float64', np.float64, True), ('list', lambda v: [v] * d, True), ('ndarray', lambda v: np.full(d, v), True),
+                ('np.float32', np.float32, False), ('0-d array', lambda v: np.array(float(v)), False)]
+    forms_n = [('float', float, True), ('np.float64', np.float64, True), ('list', lambda v: [v] * d, True),
+               ('ndarray', lambda v: np.full(d, v, dtype=int), True), ('ndarray int32', lambda v: np.full(d, v, dtype=np.int32), True),
+               ('np.int64', np.int64, False), ('np.int32', np.int32, False), ('0-d array', lambda v: np.array(int(v)), False)]
+    trials = [(('a', nm), (f(a), b, n), doc) for nm, f, doc in forms_ab if nm != 'np.float32' or float(np.float32(a)) == a] + \
+             [(('b', nm), (a, f(b), n), doc) for nm, f, doc in forms_ab if nm != 'np.float32' or float(np.float32(b)) == b] + \
+             [(('n', nm), (a, b, f(n)), doc) for nm, f, doc in forms_n]
+    for (which, nm), (aa, bb, nn), doc in trials:
+        for fn, call, ref in [('ind_to_poi', lambda: tn.ind_to_poi(list(idx), aa, bb, nn, kind), ref_x),
+                              ('poi_to_ind', lambda: tn.poi_to_ind(list(pts), aa, bb, nn, kind), ref_i),
+                              ('poi_scale', lambda: tn.poi_scale(list(pts), aa, bb, kind), ref_s)]:
+            if fn == 'poi_scale' and which == 'n':
+                continue
+            try:
+                got = np.asarray(call())
+            except Exception as e:
+                if doc:
+                    return dict(what=f'{fn}({kind}): option {which} given as {nm} raises {type(e).__name__} '
+                                     f'(scalar and per-dimension / array forms must be interchangeable)', form=nm), raised
+                raised.append(f'{fn}: {which}={nm} -> {type(e).__name__}')
+                continue
+            if got.shape != ref.shape or got.tolist() != ref.tolist():
+                return dict(what=f'{fn}({kind}): option {which} given as {nm} changes the answer', got=got.tolist(),
+                            expected=ref.tolist(), form=nm), raised
+    return None, raised
+
+
+ORACLES = dict(history=o_history, grid=o_grid, points=o_points, scale=o_scale, batch=o_batch, bcast=o_bcast, flat=o_flat,
                reject=o_reject, cdf=o_cdf)
 
 
@@ -964,6 +1076,46 @@ def search(R, ctx, deep, hints):
         X = [[a + (b - a) * rng.uniform(-0.2, 1.2) for _ in range(d)] for _ in range(m)]
         _run(tn, 'batch', (I, X, a, b, n, kind), fails, cnt)
         _run(tn, 'bcast', (I[0], X[0], a, b, n, kind), fails, cnt)
+    # 4b. HISTORY / argument-form family: ndarray options of the exact target dtype reused across 2-3 consecutive calls
+    seqs = [[('ind_to_poi', False), ('ind_to_poi', False), ('poi_to_ind', False)],
+            [('ind_to_poi', False), ('poi_to_ind', False), ('ind_to_poi', True)],
+            [('poi_to_ind', False), ('ind_to_poi', False), ('ind_to_poi', False)],
+            [('ind_to_poi', True), ('ind_to_poi', False), ('poi_to_ind', True)],
+            [('poi_scale', False), ('ind_to_poi', False), ('poi_scale', True)],
+            [('poi_to_ind', True), ('poi_to_ind', True), ('ind_to_poi', True)],
+            [('ind_to_poi', False), ('ind_to_poi', True)], [('poi_to_ind', False), ('poi_to_ind', False)]]
+    hb = [bx for bx in BOXES if bx[0] in ('unit', 'sym', 'asym', 'asym2', 'neg', 'offset1e6', 'tiny', 'huge-asym', 'pi')]
+    for t in range(240 if deep else 64):
+        d, m = rng.randint(1, 4), rng.randint(1, 4)
+        kind = rng.choice(['uni', 'cheb'])
+        bx = [rng.choice(hb) for _ in range(d)]
+        av, bv = [x[1] for x in bx], [x[2] for x in bx]
+        nv = [rng.randint(2, 12) for _ in range(d)]
+        if not all(precondition(a, b, n, kind) for a, b, n in zip(av, bv, nv)):
+            continue
+        rows = [[rng.randrange(n) for n in nv] for _ in range(m)]
+        _run(tn, 'history', (av, bv, nv, kind, seqs[t % len(seqs)], rows), fails, cnt)
+    undocumented = set()
+    for t in range(60 if deep else 16):
+        name, a, b = rng.choice(hb)
+        kind, n = rng.choice(['uni', 'cheb']), rng.randint(2, 12)
+        if not precondition(a, b, n, kind):
+            continue
+        idx = [rng.randrange(n) for _ in range(rng.randint(1, 3))]
+        cnt[0] += 1
+        try:
+            with np.errstate(all='ignore'):
+                f, raised = o_forms(tn, [a], [b], [n], kind, idx)
+        except Exception as e:
+            f, raised = dict(what='forms: valid call raised ' + repr(e)[:200]), []
+        undocumented.update(raised)
+        if f:
+            f['check'] = 'forms'
+            f['input'] = C.tolist([[a], [b], [n], kind, idx])
+            fails.append(f)
+    if undocumented:
+        R.notes.append('observation (reported to the lead): option forms outside the documented types (int, float, list, '
+                       'np.ndarray) that raise instead of being treated as scalars: ' + '; '.join(sorted(undocumented)))
     # 5. grid_flat
     shapes = [[1], [2], [5], [1, 1], [2, 3], [3, 2], [4, 1, 2], [2, 2, 2, 2], [3, 4, 5], [1, 2, 3, 4]]
     for _ in range(30 if deep else 8):
@@ -1011,7 +1163,7 @@ def search(R, ctx, deep, hints):
         zs += [min(xs) - 1, max(xs) + 1, rng.uniform(-4, 4), -1e300, 1e300]
         _run(tn, 'cdf', (xs, zs), fails, cnt)
     R.search.append(dict(name='grid maps: every index of every grid n<=%d over %d boxes x 2 kinds; points, scaling, '
-                              'batches, options, grid_flat, rejection, cdf' % (nmax, len(BOXES)),
+                              'batches, options, option arrays reused across calls (history), argument forms, grid_flat, rejection, cdf' % (nmax, len(BOXES)),
                          evaluations=cnt[0], failures=len(fails), deep=deep,
                          grids_skipped_by_precondition=skipped,
                          precondition='adjacent nodes differ by >= 2^10 ulp(max(|a|,|b|))'))
@@ -1022,6 +1174,12 @@ def replay(data):
     tn = C.import_teneva()
     p = data['payload']
     print(data['what'])
+    if isinstance(p, dict) and p.get('check') == 'forms':
+        with np.errstate(all='ignore'):
+            f, _ = o_forms(tn, *p['input'])
+        print('input:', p['input'])
+        print('replayed:', f)
+        return 1 if f else 0
     if isinstance(p, dict) and p.get('check') in ORACLES:
         args = p['input']
         try:
